@@ -48,6 +48,19 @@ def case2(c, reuse, strip, k, s0_bits, exp_s0, exp_s1):
             f'(repeat false {len(s0_bits)})) (Some ({cg.coq_list(exp_s0, b)}, {cg.coq_list(exp_s1, b)}))')
 
 
+def case_line(c, strip, k, s0_bits, exp_s0, exp_s1):
+    """line-level k-cycle iteration (Model/CycleSem.v line_cycles / line_cycles_strip, the object of C01_cycles_are_iter_sem)
+    against s[0], s[1] after LogicSim.cycle(k); independent of c_reuse."""
+    return (f'line_case2 {cg.coq_netlist(c)} {b(strip)} {k} {cg.coq_list(s0_bits, b)} (repeat false {len(s0_bits)}) '
+            f'({cg.coq_list(exp_s0, b)}, {cg.coq_list(exp_s1, b)})')
+
+
+def line_cases_file(cases):
+    body = ';\n '.join(cases)
+    return (HEADER.replace('Model.LogicSimModel Model.Corr.', 'Model.LogicSimModel Model.Corr Model.CycleSem.') +
+            f'Definition results : list bool := [\n {body}].\nEval vm_compute in (failing results).\n')
+
+
 def case8(c, reuse, strip, s0_codes, exp_s1):
     return (f'opt_eqb (list_eqb code_eqb) (sim_case8 {cg.coq_netlist(c)} {b(reuse)} {b(strip)} '
             f'{cg.coq_list(s0_codes, lambda x: CODE[x])} (repeat Una {len(s0_codes)})) '
